@@ -6,6 +6,7 @@
     checked by the oracle on the real trace. *)
 From Wasp Require Export Model.Base Spec.MatchSpec Model.DState Model.IdPool Model.Mount Model.Node.
 From Wasp Require Import Corr.DState.
+From Wasp Require Export Corr.BrokerSpec.
 Open Scope Z_scope.
 
 Definition estep : Type := (eop * list eobs)%type.
@@ -35,23 +36,6 @@ Definition eobs_eqb (a b : eobs) : bool :=
   | Listed n ss sb rg, Listed n' ss' sb' rg' =>
     Nat.eqb n n' && perm_eqb smeta_eqb ss ss' && perm_eqb sub_eqb sb sb' && perm_eqb String.eqb rg rg'
   | _, _ => false
-  end.
-
-(* per connection: distinct broker-chosen identifiers by (topic, payload, qos), in order of first appearance *)
-Definition see1 (seen : seen_t) (o : eobs) : seen_t :=
-  match o with
-  | Out c (OPublish t p q _ _ m) =>
-    if 0 <? q then
-      let l := odflt [] (alookup c seen) in
-      let key_eq := fun e : (string * string * Z) * list Z => String.eqb (fst (fst (fst e))) t && String.eqb (snd (fst (fst e))) p && (snd (fst e) =? q) in
-      let l' := match find key_eq l with
-                | Some e => if existsb (Z.eqb m) (snd e) then l
-                            else map (fun x => if key_eq x then (fst x, (snd x ++ [m])%list) else x) l
-                | None => (l ++ [((t, p, q), [m])])%list
-                end in
-      aset c l' seen
-    else seen
-  | _ => seen
   end.
 
 (* broker-chosen identifiers appearing in a step, over all connections: which connection gets
@@ -85,9 +69,11 @@ Fixpoint first_bad (steps : list estep) (cl : cluster) (seen : seen_t) (i : nat)
     else Some (i, snd r)
   end.
 
+(* the specification-level oracle (Corr/BrokerSpec.v): no step of the observed history breaks a demand *)
 Definition oracle_ok (c : case) : bool :=
-  let '(_, _, steps) := c in
-  forallb (fun s : estep => match fst s with EPanic => false | _ => forallb (fun o => match o with Garbage _ => false | _ => true end) (snd s) end) steps.
+  let '(_, k, steps) := c in is_nil (orun (oinit k) steps 0).
+Definition oracle_why (c : case) : list (nat * list nat) :=
+  let '(_, k, steps) := c in orun (oinit k) steps 0.
 
 Definition case_id (c : case) : N := fst (fst c).
 Definition mismatches (cs : list case) : list N := map case_id (filter (fun c => negb (model_ok c)) cs).
